@@ -72,4 +72,7 @@ VARIANTS = [
 '''),
     dict(name="twin: union spelled with .union", kind="twin", file=SL,
          old="            next_ix_sl = ix_sl | frozenset([ix])\n", new="            next_ix_sl = ix_sl.union(frozenset([ix]))\n"),
+    dict(name="round2: finder models self, indices applied to tree", kind="break", file=CORE,
+         old="        sf = SliceFinder(\n            tree,", new="        sf = SliceFinder(\n            self,",
+         expect=("C07-APPLY", "same-tree")),
 ]
